@@ -57,16 +57,29 @@ Theorem c07_roundtrip_exact_finite_range :
 Proof. exact fr_roundtrip_linear. Qed.
 Print Assumptions c07_roundtrip_exact_finite_range.
 
-(* finite range with cast_int=True (linear scaling): every listed value values[i] = round(grid
-   point i) encodes to the index of a grid point that rounds to the same integer (ties at
-   half-integers included; duplicates in [values] are harmless) *)
+(* finite range with cast_int=True: every listed value values[i] encodes into [0,1] and decodes
+   back to itself, for EVERY scaling (log included) when the range is not degenerate, and for
+   linear scaling in general.  The code looks a listed value up in its list of values.
+   [Before the fix of F-C07-15 the index was always found by rounding in the internal domain; that
+    is exact for linear scaling (lemma castint_core, half-integer ties included) but REFUTED for
+    log scaling: logfinrange(5.5, 11, 5, cast_int=True) = [6,7,8,9,11] and
+    round((ln 6 - ln 5.5) / (ln 2 / 4)) = round(0.502) = 1, so 6 came back as 7.] *)
 Theorem c07_roundtrip_exact_finite_range_castint :
-  forall eps r i, 0 < eps < 1 # 2 -> f_sc r = Domain.linear -> f_cast_int r = true -> f_lo r <= f_hi r ->
+  forall eps r i, 0 < eps < 1 # 2 -> f_cast_int r = true ->
+    (f_sc r = Domain.linear /\ f_lo r <= f_hi r) \/ Qeqb (f_step r) 0 = false ->
     (0 <= i < f_size r)%Z ->
     exists e y, fr_to_nd eps r (fr_map_from_int r i) = Some e /\ 0 <= e <= 1 /\
                 fr_from_nd eps r e = Some y /\ val_eqb (fr_map_from_int r i) y = true.
 Proof. exact fr_roundtrip_castint. Qed.
 Print Assumptions c07_roundtrip_exact_finite_range_castint.
+
+(* ... and FiniteRange.cast of a listed value returns that value (any scaling)
+   [before F-C07-15: logfinrange(5.5, 11, 5, cast_int=True).cast(6) = 7] *)
+Theorem c07_cast_finite_range_castint_exact :
+  forall r i, f_cast_int r = true -> Qeqb (f_step r) 0 = false -> (0 <= i < f_size r)%Z ->
+    exists y, fd_cast r (val_num (fr_map_from_int r i)) = Some y /\ val_eqb (fr_map_from_int r i) y = true.
+Proof. exact fd_cast_castint_exact. Qed.
+Print Assumptions c07_cast_finite_range_castint_exact.
 
 (* ordinal with nearest-neighbour encoding (kind nn / nn-log): every category encodes into [0,1]
    and decodes back to itself.  [sc] is the transform of the domain (identity or log);
@@ -100,10 +113,10 @@ Print Assumptions c07_roundtrip_exact_index.
 
 (* a whole space (every combination of the above, any length): advertised length, inside the
    unit cube, decodes back to the same configuration.
-   _partial: finite ranges must have LINEAR scaling (logfinrange is excluded by [hp_rt_ok]; over Q
-   no log exists, and DomainR.v does not restate finite ranges); everything else is covered:
-   continuous / integer ranges under [sc_good], cast_int finite ranges, one-hot, binary,
-   ordinal-equal and nearest-neighbour ordinals. *)
+   _partial: finite ranges with float values must have LINEAR scaling (logfinrange without cast_int
+   is excluded by [hp_rt_ok]; over Q no log exists, and DomainR.v does not restate finite ranges);
+   everything else is covered: continuous / integer ranges under [sc_good], cast_int finite ranges
+   with any scaling, one-hot, binary, ordinal-equal and nearest-neighbour ordinals. *)
 Theorem c07_roundtrip_space_partial :
   forall eps hs xs, 0 < eps < 1 # 2 ->
     Forall2 (fun h x => hp_rt_ok eps h /\ hp_rt_member h x) hs xs ->
